@@ -29,15 +29,15 @@ for i,n in enumerate([256,1024,4096,8192]):
     if not os.path.exists(p):
         open(p,"wb").write(bytes(r.getrandbits(8) for _ in range(n)))
 PY
-MARK=$(mktemp)
 OUT=$(mktemp)
-WWFUZZ_PROPERTY=$ID WWFUZZ_CHECK=$CHECK WWFUZZ_STATS=/verif/harness/fuzz/stats/${ID}_${CHECK}.json \
+FOUND=/verif/replays/found/fuzz_${ID}_${CHECK}_$$; mkdir -p "$FOUND"
+WWCHECK_FOUND_DIR=$FOUND WWFUZZ_PROPERTY=$ID WWFUZZ_CHECK=$CHECK WWFUZZ_STATS=/verif/harness/fuzz/stats/${ID}_${CHECK}.json \
   "$BIN" "$CORPUS" -fork="$JOBS" -max_total_time="$SECS" -max_len=16384 -len_control=0 \
   -seed="${VERIF_SEED:-0}" -artifact_prefix=fuzz/artifacts/${ID}_${CHECK}/ -ignore_crashes=0 -print_final_stats=1 >"$OUT" 2>&1
 rc=$?
 grep -E "^#[0-9]+: cov:|stat::|^INFO: -fork|crash|DONE" "$OUT" | tail -n 8
-NEW=$(find /verif/replays/found -name "${ID}_${CHECK}_*.json" -newer "$MARK" 2>/dev/null | head -n 1)
-rm -f "$MARK" "$OUT"
+NEW=$(find "$FOUND" -name "${ID}_${CHECK}_*.json" 2>/dev/null | head -n 1)
+rm -f "$OUT"; rmdir "$FOUND" 2>/dev/null
 if [ -n "$NEW" ]; then
   echo "VIOLATION property=$ID replay=$NEW"
   python3 -c "import json,sys;d=json.load(open('$NEW'));print('  check=%s reason=%s'%(d['check'],d['reason'][:400]))"
